@@ -27,6 +27,7 @@ const STAGES: &[(&str, StageFn)] = &[
     ("c01.random", c01::random),
     ("c01.bytes", c01::bytes),
     ("c01.longruns", c01::longruns),
+    ("c01.gaps", c01::gaps),
     ("c02.codes", c02::codes),
     ("c02.sampled", c02::sampled),
     ("c02.streams", c02::streams),
@@ -36,6 +37,8 @@ const STAGES: &[(&str, StageFn)] = &[
     ("c04.file", c04::file),
     ("c04.cli", c04::cli),
     ("c04.large", c04::large),
+    ("c04.seams", c04::seams),
+    ("c04.largefile", c04::largefile),
     ("c05.sched_exhaustive", c05::sched_exhaustive),
     ("c05.sched_random", c05::sched_random),
     ("c05.free", c05::free),
@@ -43,22 +46,28 @@ const STAGES: &[(&str, StageFn)] = &[
     ("c05.cli", c05::cli),
     ("c05.stress", c05::stress),
     ("c05.manyrecs", c05::manyrecs),
+    ("c05.hugebatch", c05::hugebatch),
     ("c14.stress", c05::stress),
     ("c06.files", c06::files),
     ("c06.suffixes", c06::suffixes),
     ("c06.cli_rows", c06::cli_rows),
+    ("c06.member_boundaries", c06::member_boundaries),
     ("c07.sched_exhaustive", c07::sched_exhaustive),
     ("c07.sched_random", c07::sched_random),
     ("c07.configs", c07::configs),
     ("c07.contention", c07::contention),
+    ("c07.seams", c07::seams),
     ("c07.cli", c07::cli),
     ("c08.lib", c08::lib),
     ("c08.cli", c08::cli),
     ("c08.big", c08::big),
     ("c08.manyrecs", c08::manyrecs),
+    ("c08.exact_multiples", c08::exact_multiples),
     ("c09.exhaustive", c09::exhaustive),
     ("c09.random", c09::random),
     ("c09.longruns", c09::longruns),
+    ("c09.gaps", c09::gaps),
+    ("c18.gaps", c09::gaps),
     ("c18.longruns", c09::longruns),
     ("c10.lib", c10::lib),
     ("c10.sched_exhaustive", c10::sched_exhaustive),
@@ -73,6 +82,7 @@ const STAGES: &[(&str, StageFn)] = &[
     ("c12.lib", cgr::kcgr_lib),
     ("c12.cli", cgr::kcgr_cli),
     ("c12.large", cgr::kcgr_large),
+    ("c11.huge_output", cgr::huge_output),
     ("c11.manyrecs", cgr::manyrecs),
     ("c12.manyrecs", cgr::manyrecs),
     ("c14.mmap", c14::mmap),
